@@ -6,6 +6,7 @@ Traces == ndJsonDeserialize(IOEnv.TRACE_FILE)
 VARIABLES tid, l, verdict, firstbad, done
 vars == <<tvars, tid, l, verdict, firstbad, done>>
 T == Traces[tid]
+TolTab == 30000
 Ev == T.ev[l]
 Init == /\ tid \in 1..Len(Traces)
         /\ TInit(Traces[tid].cfg.nasm, Traces[tid].cfg.grids,
@@ -27,6 +28,17 @@ FinishClauses(o) ==
   \cup (IF \A a \in Asm : o.pkC[a] = pkC[a] THEN {} ELSE {"ReportedPeakCoolant"})
   \cup (IF \A a \in Asm : o.pkD[a] = pkD[a] THEN {} ELSE {"ReportedPeakDuct"})
   \cup (IF o.tables = 1 THEN {} ELSE {"SummaryTablesMatchFinalFields"})
+  \* the printed pressure-drop table (1e-4 of the largest total = TolTab
+  \* quanta: 5 significant digits) shows the accumulated ledger; a part may be
+  \* left blank (-1) only when it is zero / not requested / there is no bundle
+  \cup (IF o.ptab = <<>> \/ \A a \in Asm :
+            LET t == o.ptab[a]  bundle == T.cfg.blo[a] # T.cfg.bhi[a] IN
+            /\ Close(t[1], F[a] + S[a] + G[a], TolTab)
+            /\ Close(t[5], t[1], TolTab)
+            /\ (IF t[2] = -1 THEN ~bundle ELSE Close(t[2], F[a], TolTab))
+            /\ (IF t[3] = -1 THEN ~bundle \/ S[a] <= TolTab ELSE Close(t[3], S[a], TolTab))
+            /\ (IF t[4] = -1 THEN ~bundle \/ T.cfg.gravity = 0 ELSE Close(t[4], G[a], TolTab))
+        THEN {} ELSE {"PressureTablePrintsTheLedger"})
 TrFinish == Live("Finish") /\ UNCHANGED tvars /\ Note(FinishClauses(Ev))
 TrCrash == Live("Crash") /\ UNCHANGED tvars /\ Note({"SweepRuns"})
 Report == /\ ~done /\ l > Len(T.ev)
